@@ -599,10 +599,27 @@ def r7_accept_implies_verified(run, rule="R7", only_valid_cert="F",
         lambda nid, vd: nid == cfg.return_exit and vd["verified"] != "T")
     key = fi.qual + "::accept=>verified" + construct_suffix
     if wit is not None and construct_suffix:
-        br = [cfg.nodes[i] for i in wit if cfg.nodes[i].kind in ("true", "false")
-              and "verified" in unparse(cfg.nodes[i].ast)]
-        if br:
-            key += "::via:" + br[-1].ctext()
+        # which other condition lets an unverified signature through: the
+        # atoms (other than `verified` itself) asserted by the branches after
+        # the last statement of the witness - however the test is spelled
+        # (`a or b`, nested ifs, negated guard with swapped arms)
+        tail = []
+        for i in reversed(wit):
+            nd = cfg.nodes[i]
+            if nd.kind in ("true", "false"):
+                tail.append(nd)
+            elif nd.kind in ("stmt", "raise", "exc", "handler"):
+                break
+        atoms = set()
+        for nd in tail:
+            from .. import canon
+            for conj in cfg.cdnf(nd.id):
+                atoms |= {(canon.ctext(e), pol) for e, pol in conj
+                          if canon.ctext(e) != "verified" and
+                          canon.ctext(e).isidentifier()}
+        if atoms:
+            key += "::via:" + ",".join(
+                "%s%s" % ("" if pol else "not ", t) for t, pol in sorted(atoms))
     run.check(wit is None, rule, key,
               "no normal return is reachable unless verified is True "
               "(only_valid_cert=%s)" % only_valid_cert,
